@@ -54,10 +54,67 @@ def do_recv(frs):
             out.append([CID_OF[m.destination], bytes(m.data).hex()])
     return {"out": out}
 
+# ---- end to end through the real LinkLayer (on_l2cap_send_data / on_data_pdu) ----
+from scapy.layers.bluetooth4LE import BTLE_DATA
+from whad.ble.stack.constants import BtVersion
+from whad.ble.stack.llm import LinkLayer
+from whad.hub.ble.bdaddr import BDAddress
+
+@alias('phy')
+class Phy(Sandbox):
+    @property
+    def bt_version(self): return BtVersion(4, 0)
+    @property
+    def manufacturer_id(self): return 2
+    @property
+    def bt_sub_version(self): return 0x100
+Phy.add(LinkLayer)
+
+def mk_phy():
+    p = Phy()
+    ll = p.get_layer('ll')
+    ll.on_connect(42, BDAddress('11:22:33:44:55:66'), BDAddress('66:55:44:33:22:11'))
+    l2 = ll.get_layer(ll.state.get_connection_l2cap(42))
+    l2.register_monitor_callback(p.log_message)
+    return p, l2
+
+def do_send_ll(mtu, cid, sdu):
+    p, l2 = mk_phy()
+    l2.set_remote_mtu(mtu)
+    try:
+        if cid == 6:
+            l2.on_smp_packet_recv(sdu)
+        elif cid == 4:
+            l2.on_att_packet_recv(sdu)
+        else:
+            l2.on_att_packet_recv(sdu, channel=cid)
+    except Exception as e:  # noqa
+        return {"exc": type(e).__name__}
+    pdus = []
+    for m in p.messages:
+        if m.destination == 'phy' and m.tag == 'data':
+            pdus.append([int(m.data.LLID), bytes(m.data.payload).hex()])
+    return {"pdus": pdus}
+
+def do_recv_ll(pdus):
+    p, l2 = mk_phy()
+    try:
+        for llid, hx in pdus:
+            p.send('ll', BTLE_DATA(LLID=llid) / bytes.fromhex(hx), tag='data', conn_handle=42)
+    except Exception as e:  # noqa
+        return {"exc": type(e).__name__}
+    out = []
+    for m in p.messages:
+        if m.source == l2.name and m.destination in CID_OF:
+            out.append([CID_OF[m.destination], bytes(m.data).hex()])
+    return {"out": out}
+
 def main():
     req = json.load(sys.stdin)
     res = {"send": [do_send(m, c, bytes.fromhex(h)) for m, c, h in req.get("send", [])],
-           "recv": [do_recv(f) for f in req.get("recv", [])]}
+           "recv": [do_recv(f) for f in req.get("recv", [])],
+           "send_ll": [do_send_ll(m, c, bytes.fromhex(h)) for m, c, h in req.get("send_ll", [])],
+           "recv_ll": [do_recv_ll(f) for f in req.get("recv_ll", [])]}
     print("RESULT " + json.dumps(res))
 
 main()
